@@ -311,6 +311,8 @@ PROPS['C18']['level_text'] = ('Resolution by governing value is a discharged con
                               'governing value leaves the captured octets in place; capturing reads exactly the element (read / wrapper / ANY '
                               'contracts). Wrapping on encode, tagging variants and SET OF containers are bounded stand-ins over 4 codecs x 3 '
                               'taggings x 3 containers x 2 governor kinds x 4 inner values.')
+for _p in ('C03', 'C02', 'C04'):
+    PROPS[_p]['contracts'] = PROPS[_p]['contracts'] + [(CE, 'der.encoder::SetEncoder._componentSortKey[value-object]')]
 BS = 'contracts.base'
 BASE = [(BS, 'type.base::SimpleAsn1Type.__init__'), (BS, 'type.base::SimpleAsn1Type.clone'),
         (BS, 'type.base::SimpleAsn1Type.subtype')]
